@@ -166,3 +166,5 @@ func TestVerifReplayC01(t *testing.T) {
 	refused("re-sealed info, unknown re-sealing key id", rc, withReseal(reseal(bystander, rInfo.Nonce, rInfo.CertificatePublicKeyPkix), "no-such-key-id"))
 	answered("re-sealed by a registered node", rc, withReseal(reseal(bystander, rInfo.Nonce, rInfo.CertificatePublicKeyPkix), bystanderId))
 }
+
+func TestVerifReplayC01TokenFaults(t *testing.T) { vrTokenUnderFaults(t) }
